@@ -52,7 +52,7 @@ SPEC = {
             'while RMN is disabled / wait; execute: the three phases; N=4 oracles; each scenario under three discovery configurations: no discovery processor, discovery enabled with '
             'contracts initialised, discovery enabled on a fresh instance) is serialised, every node of every JSON document (observation of one oracle, query, '
             'previous outcome, outcome fed to Reports, report, report info) is enumerated and mutated in 9 ways (null, empty, zero, 2^64-1, negative, duplicate element, '
-            'delete, type confusion, big / odd string), and every callback that consumes the document is driven under recover() and a 3 s watchdog: ValidateObservation, '
+            'delete, type confusion, big / odd string), and every callback that consumes the document is driven under recover() and a 3 s watchdog (a watch that stretches when the test process itself is starved, with a second chance of 6 s before a hang is recorded; it never depends on the wall clock alone): ValidateObservation, '
             'then Outcome and Reports only with observations that individually passed validation, Observation / Query on mutated previous outcomes and queries, '
             'ShouldAccept / ShouldTransmit on mutated reports; plus random double-site mutations of the observation (quick 400, thorough 40 000) and a raw byte stream (truncated, random, single-byte corrupted, tiny literals) at every entry point. '
             'One case per (document, site, mutation, callback); the observable is the termination code (returned / panicked / watchdog). C13_reader_*: every answer a scripted contract reader gives while either plugin observes through the real ccipChainReader (all phases) is mutated at every JSON node in turn (reader results: nil-valued, empty, inconsistent). The RMN controller\'s response '
@@ -68,7 +68,7 @@ SPEC = {
             'len+1 / len+7, KeepNRightBytes with n in {0, 1, 19, 20, 21, 32, 33, MaxUint}, USDC payloads of 0 / 31 / 32 / 59 / 63 / 64 / 65 bytes, fee components and '
             'prices present / nil, packed fee updates nil / 0 / 1 / negative / 2^200 with and without timestamp, price feed answers nil x decimals {0, 6, 17, 18, 19, 36, 255}, '
             'a chain writer answering (nil, nil), and the executed-range loop of filterOutExecutedMessages on reports [hi-w, hi], w in {0, 1, 3}, hi in {20, 2^64-2, 2^64-1}, '
-            'with executed ranges around both ends (watchdog 150 ms; the part stops at the first hang because the loop also allocates without bound). '
+            'with executed ranges around both ends (watchdog 150 ms + 300 ms second chance, same kind of watch; the part stops at the first hang because the loop also allocates without bound). '
             'A case is (abstract site input, 0 returned / 1 returned an error / 2 panicked / 3 did not return); Coq evaluates the site\'s model on the same input and '
             'compares the code exactly (a guard that became weaker or stricter is a mismatch), the executable property is "never 2 or 3". '
             'non-trivial: every case; distinct by digest',
